@@ -43,12 +43,54 @@ def ranks(x, method='average'):
     return out
 
 
+def _missing(v):
+    return math.isnan(v)
+
+
 def sqrt_clip(x):
-    return [math.sqrt(max(float(v), 0.0)) for v in x]
+    """sqrt(max(x, 0)) entry by entry; a missing (NaN) entry stays missing"""
+    out = []
+    for v in x:
+        v = float(v)
+        if _missing(v):
+            out.append(float('nan'))
+        elif v <= 0.0:
+            out.append(0.0)
+        else:
+            out.append(math.sqrt(v))
+    return out
 
 
 def positive(x):
-    return [max(float(v), 0.0) for v in x]
+    """max(x, 0) entry by entry; a missing (NaN) entry stays missing"""
+    out = []
+    for v in x:
+        v = float(v)
+        if _missing(v):
+            out.append(float('nan'))
+        else:
+            out.append(v if v > 0.0 else 0.0)
+    return out
+
+
+def same_order(x, y):
+    """True iff y is a strictly increasing image of x on the non-missing entries: every pair
+    of entries is ordered / tied in y exactly as in x, missing entries at the same places"""
+    x = [float(v) for v in x]
+    y = [float(v) for v in y]
+    if len(x) != len(y):
+        return False
+    for a, b in zip(x, y):
+        if _missing(a) != _missing(b):
+            return False
+    idx = [i for i, v in enumerate(x) if not _missing(v)]
+    for i in idx:
+        for j in idx:
+            if j <= i:
+                continue
+            if ((x[i] > x[j]) - (x[i] < x[j])) != ((y[i] > y[j]) - (y[i] < y[j])):
+                return False
+    return True
 
 
 def minmax(x):
